@@ -469,9 +469,11 @@ class _Gen(object):
                 kinds += ['tun', 'tun', 'tun']
             if tbin_t:
                 kinds += ['tbin', 'tbin']
-        elif tun_t and p.temporal_in_arith:
-            # a bounded operator whose window starts at 0 always contains the current sample: finite over a finite operand,
-            # so it may stand below arithmetic and comparisons ((eventually[0,2] x) - (always[0,2] x) <= 1)
+        elif p.temporal_in_arith and any(o in TUN_PAST for o in tun_t):
+            # a bounded past operator whose window starts at 0 always contains the current sample: finite over a finite
+            # operand, so it may stand below arithmetic, comparisons, iff and xor ((once[0,2] x) - (historically[0,2] x) <= 1).
+            # (Bounded future operators stay out: after pastify() the warm-up values of their delayed siblings are infinite
+            # and inf - inf is NaN; C03 and C20 build such terms explicitly where the warm-up is not compared.)
             kinds += ['tun0']
         if not kinds:
             f, m = self.predicate(depth)
@@ -508,7 +510,7 @@ class _Gen(object):
             r, rf, mr = sub(depth - 1, fin)
             return ('bin', op, l, r), lf and rf, max(ml, mr)
         if kind == 'tun0':
-            op = self.choice(tun_t)
+            op = self.choice([o for o in tun_t if o in TUN_PAST])
             b = self.integer(0, self.p.max_bound)
             sub = self.past_operand if op in TUN_PAST else self.formula
             c, cf, m = sub(depth - 1, True)
